@@ -159,8 +159,10 @@ func TestC11(t *testing.T) {
 	var sd int64 = 1
 	fmt.Sscan(os.Getenv("VERIF_SEED"), &sd)
 	r := rand.New(rand.NewSource(sd))
-	names := []string{"os", "arch", "zz", "x.y-z_1"}
-	values := []string{"a", "b", "c", "", "{{matrix.os}}"}
+	// names and values that collide when a name and a value are glued with a separator
+	// ("os" + ":" + "linux:arm64" == "os:linux" + ":" + "arm64"), for every separator one might pick
+	names := []string{"os", "arch", "zz", "x.y-z_1", "os:linux", "os=linux", "os/linux", "os linux", "os\x00linux", "os,linux", "os|linux", "os.linux"}
+	values := []string{"a", "b", "c", "", "{{matrix.os}}", "arm64", "linux:arm64", "linux=arm64", "linux/arm64", "linux arm64", "linux\x00arm64", "linux,arm64", "linux|arm64", "linux.arm64"}
 	for i := 0; i < rounds; i++ {
 		nd := 1 + r.Intn(3)
 		var ds []string
@@ -174,6 +176,12 @@ func TestC11(t *testing.T) {
 				l = append(l, values[r.Intn(len(values))])
 			}
 			setup[d] = l
+		}
+		if i%3 == 0 {
+			// the colliding pair: dimension "os" holds "linux<sep>arm64", dimension "os<sep>linux" does not hold "arm64"
+			sep := []string{":", "=", "/", " ", "\x00", ",", "|", "."}[r.Intn(8)]
+			ds = []string{"os", "os" + sep + "linux"}
+			setup = map[string][]string{"os": {"darwin", "linux" + sep + "arm64"}, "os" + sep + "linux": {"glibc", "musl"}}
 		}
 		tuple := func(mode int) map[string]string {
 			w := map[string]string{}
@@ -212,6 +220,10 @@ func TestC11(t *testing.T) {
 			}
 		} else {
 			perm = tuple(r.Intn(2))
+		}
+		if i%3 == 0 && r.Intn(2) == 0 {
+			// the value that only exists glued: "arm64" for the second dimension
+			perm = map[string]string{ds[0]: setup[ds[0]][r.Intn(2)], ds[1]: "arm64"}
 		}
 		if len(perm) == 0 {
 			continue
